@@ -92,7 +92,7 @@ func c10Leaves(front string) []c10leaf {
 }
 
 func C10_Jobs() []string {
-	return []string{"paths/map", "paths/validate", "paths/json", "missing/map", "missing/json", "flat/json", "flat/zhttp-json", "cross-front-end", "issuepath-stale", "long-slice-paths", "sanitize-root-first", "empty-record/map", "empty-record/nested", "empty-record/json", "issuepath", "sanitize", "first-and-unique/map", "first-and-unique/validate", "root-key", "deep-slices/parse", "deep-slices/validate", "issuepath-on-copy"}
+	return []string{"paths/map", "paths/validate", "paths/json", "missing/map", "missing/json", "flat/json", "flat/zhttp-json", "cross-front-end", "issuepath-stale", "long-slice-paths", "sanitize-root-first", "empty-record/map", "empty-record/nested", "empty-record/json", "issuepath", "sanitize", "first-and-unique/map", "first-and-unique/validate", "root-key", "deep-slices/parse", "deep-slices/validate", "issuepath-on-copy", "empty-tag-paths/parse", "empty-tag-paths/validate", "source-tag-keys"}
 }
 func C10_Covers() []string { return []string{"some-issues"} }
 
@@ -450,6 +450,61 @@ func C10_Run(job string) {
 			}
 		}
 		v.Assert((nbad == 0 && errs == nil) || len(errs) == nbad+1, "C10:issue-not-at-documented-path")
+		v.Cover("some-issues")
+	case "empty-tag-paths":
+		// a field tagged with the empty string contributes no path segment; its siblings and the
+		// fields below it keep theirs, whatever the order of visits, and later calls are unaffected
+		type leaf struct {
+			Kind string `zog:""`
+			City string
+		}
+		type top struct {
+			Kind string `zog:""`
+			Addr leaf
+			L    []leaf
+		}
+		v.MapOrderChoice(true)
+		lf := func() *z.StructSchema {
+			return z.Struct(z.Schema{"kind": z.String().Min(9), "city": z.String().Min(9)})
+		}
+		sc := z.Struct(z.Schema{"kind": z.String(), "addr": lf(), "l": z.Slice(lf())})
+		var d top
+		var errs z.ZogIssueMap
+		if b == "validate" {
+			d = top{Kind: "k", Addr: leaf{"k", "c"}, L: []leaf{{"k", "c"}}}
+			errs = sc.Validate(&d)
+		} else {
+			rec := map[string]any{"": "k", "city": "c"}
+			errs = sc.Parse(map[string]any{"": "k", "addr": rec, "l": []any{rec}}, &d)
+		}
+		v.MapOrderChoice(false)
+		c10WellFormed(errs)
+		v.Assert(len(errs) == 5 && len(errs["addr.city"]) == 1 && len(errs["addr"]) == 1 && len(errs["l[0].city"]) == 1 && len(errs["l[0]"]) == 1, "C10:issue-not-at-documented-path")
+		var d2 struct{ Name string }
+		e2 := z.Struct(z.Schema{"name": z.String().Min(9)}).Parse(map[string]any{"name": "n"}, &d2)
+		v.Assert(len(e2) == 2 && len(e2["name"]) == 1, "C10:issue-not-at-documented-path")
+		v.Cover("some-issues")
+	case "source-tag-keys":
+		// form / query: the key of a field is its source tag whatever parameters the request
+		// happens to carry (a parameter named like the zog tag or the schema key is another parameter)
+		type D struct {
+			Email string `query:"q_email" form:"f_email" zog:"email"`
+			Age   int    `query:"q_age" form:"f_age"`
+		}
+		front := []string{"query", "form"}[v.Choice("front", 2)]
+		qs := []string{"email=nope&age=3", "q_email=nope&f_email=nope&email=x", "Email=x&Age=1", ""}[v.Choice("request", 4)]
+		req := c11Request("GET", "", "", qs)
+		if front == "form" {
+			req = c11Request("POST", "application/x-www-form-urlencoded", qs, "")
+		}
+		var d D
+		errs := z.Struct(z.Schema{"email": z.String().Min(9).Required(), "age": z.Int().Required()}).Parse(zhttp.Request(req), &d)
+		c10WellFormed(errs)
+		ek, ak := "q_email", "q_age"
+		if front == "form" {
+			ek, ak = "f_email", "f_age"
+		}
+		v.Assert(len(errs) == 3 && len(errs[ek]) == 1 && len(errs[ak]) == 1 && errs[ak][0].Code == "required", "C10:issue-not-at-documented-path")
 		v.Cover("some-issues")
 	case "issuepath-on-copy":
 		// a reusable test specialised on a copy: the options of the copy that runs decide the path
